@@ -13,24 +13,4 @@ for d in seeded/*/; do
   fi
   tools/seed_verify.py $id $prop $d --checks $list 2>&1 | grep -v "^  check" | tail -1
 done
-python3 - <<'P'
-import json, glob, os
-checks = [c["property_id"] for c in json.load(open("/verif/MANIFEST.json"))["checks"]]
-out = ["# Detection matrix: seeded change x check (quick tier)", "",
-       "Generated by tools/seed_matrix.sh. X = the check exits 1 with a VIOLATION line on the tree with the change applied; . = silent; "
-       "- = not run (the five slowest checks are only run against the changes aimed at them); ! = the check itself failed (exit 2).", "",
-       "| seeded change | breaks | confirmed | " + " | ".join(c[1:] for c in checks) + " |", "|---|---|---|" + "---|" * len(checks)]
-own = 0
-total = 0
-for p in sorted(glob.glob("/verif/seeded/*/meta.json")):
-    m = json.load(open(p))
-    ch = m.get("checks", {})
-    row = "| %s | %s | %s | " % (m["id"], m["breaks_property"], "yes" if m.get("confirmed") else "NO")
-    row += " | ".join("X" if ch.get(c, {}).get("rc") == 1 else ("-" if c not in ch else ("!" if ch[c].get("rc") not in (0, 1) else ".")) for c in checks) + " |"
-    out.append(row)
-    total += 1
-    own += 1 if ch.get(m["breaks_property"], {}).get("rc") == 1 else 0
-out += ["", "%d of %d changes are reported by the check of the property they were aimed at." % (own, total)]
-open("/verif/seeded/MATRIX.md", "w").write("\n".join(out) + "\n")
-print("\n".join(out[-8:]))
-P
+python3 tools/seed_table.py
